@@ -119,7 +119,8 @@ def neutral():
     correct) or an analysis error (an idiom the analysis does not read yet)."""
     import glob
     bad = 0
-    for d in sorted(glob.glob("/verif/neutral/*/")):
+    prefix = sys.argv[2] if len(sys.argv) > 2 else ""
+    for d in sorted(glob.glob("/verif/neutral/" + prefix + "*/")):
         patch = d + "patch.diff"
         r = subprocess.run([sys.executable, __file__, "try", patch], capture_output=True, text=True)
         try:
@@ -132,8 +133,13 @@ def neutral():
         err = sorted(p for p, x in res.items() if x.get("rc") == 2)
         bad += bool(viol or err)
         print(os.path.basename(d.rstrip("/")), "VIOL", viol, "ERR", err, flush=True)
+        shown = set()
         for p in viol + err:
-            print("    ", p, res[p]["first"][:1])
+            msg = (res[p]["first"][:1] or [""])[0]
+            msg = msg.split(": ", 1)[-1][:200] if "ANALYSIS-ERROR" in msg else msg[:200]
+            if msg not in shown:
+                shown.add(msg)
+                print("    ", p, msg)
     print("neutral refactors with a report:", bad)
     return 1 if bad else 0
 
